@@ -70,7 +70,12 @@ arts = sorted(glob.glob(f"{work}/artifacts/*"))
 code = 0
 if r.returncode != 0 or arts:
     kinds = [os.path.basename(a).split("-")[0] for a in arts]
-    if arts and all(k in ("timeout", "oom", "slow") for k in kinds):
+    # "slow-unit" artifacts are informational (libFuzzer reports inputs slower than a threshold): not a result
+    arts = [a for a in arts if not os.path.basename(a).startswith("slow")]
+    kinds = [os.path.basename(a).split("-")[0] for a in arts]
+    if not arts and r.returncode == 0:
+        pass
+    elif arts and all(k in ("timeout", "oom") for k in kinds):
         keep = f"{V}/replays/{ID}"; os.makedirs(keep, exist_ok=True)
         for a in arts: shutil.copy(a, keep)
         print(f"INCONCLUSIVE property={ID} libFuzzer target {TARGET}: {', '.join(kinds)} (artifacts copied to {keep})")
